@@ -78,7 +78,7 @@ pub struct Instr {
 /// | Std06       | time i32, opcode i16, ARGsize u16 (always 12)            (8)             | opcode == -1 (written as 20 x ff)          |
 /// | Std10       | time i32, opcode i16, size u16 (incl. hdr)               (8)             | opcode == -1 (written as 20 x ff)          |
 /// | Ecl06/Ecl07 | time i32, opcode u16, size i16 (incl. hdr), zero u8, difficulty u8, param_mask u16 (12) | opcode == 0xffff, after reading `size` bytes |
-/// | Timeline06  | time i16, arg0 i16, opcode u16, size i16 (incl. hdr)     (8)             | (time, arg0) == (-1, 4); only 4 bytes long |
+/// | Timeline06  | time i16, arg0 i16, opcode u16, size u16 (incl. hdr)     (8)             | (time, arg0) == (-1, 4); only 4 bytes long |
 /// | Timeline08  | time i32, opcode u16, size u8 (incl. hdr), difficulty u8 (8)             | (time,opcode,size,difficulty) == (-1,0,0,0); 8 bytes |
 ///
 /// Ecl06 (TH06) and Ecl07 (TH07..TH095) have the same byte layout; they differ only in that the TH06
@@ -168,9 +168,9 @@ fn read_one(b: &[u8], off: usize, layout: InstrLayout) -> Result<Step, String> {
             let arg0 = i16_at(b, off + 2, "instr arg0")?;
             if (time, arg0) == (-1, 4) { return Ok(Step::Terminal { size: 4 }); }
             let opcode = u16_at(b, off + 4, "instr opcode")?;
-            let size = i16_at(b, off + 6, "instr size")?;
-            if (size as i64) < hs as i64 { return Err(format!("instr at {off:#x}: size {size} < header size {hs}")); }
-            let size = size as usize;
+            // unsigned: the field holds the total size of instructions up to 65535 bytes (thtk: uint16_t size)
+            let size = u16_at(b, off + 6, "instr size")? as usize;
+            if size < hs { return Err(format!("instr at {off:#x}: size {size} < header size {hs}")); }
             let args = get(b, off + hs, size - hs, "instr args")?;
             let mut ins = dflt(time as i32, opcode, size, args);
             ins.extra_arg = Some(arg0);
